@@ -1,7 +1,9 @@
+import Driver.Drv.Dispatcher
 import Driver.Drv.Lru
 namespace Driver
 
 def drivers : List (String × CaseFn) := [
+  ("dispatcher", Driver.Drv.Dispatcher.runCase),
   ("lru", Driver.Drv.Lru.runCase)]
 
 end Driver
